@@ -1,16 +1,22 @@
 (* C13 — the property as a boolean checker on ONE observed history of one object.
    It never mentions [Model.step], [Model.build_class], [Model.sort_len] or
-   [Model.first_match]: the governing rule of a name is computed here directly
-   from the class hierarchy as the property words it —
+   [Model.first_match] (it shares only the data types, the dictionary functions and
+   [own_tables], the split of a class body into exact and wildcard declarations): the
+   governing rule of a name is computed here directly from the class hierarchy as the
+   property words it —
      the instance trait of that name if one was added (and not removed),
-     else the class trait of that name, own before inherited (bases in order),
+     else the class trait of that name, own before inherited,
      else (names __x__: Python-reserved, see below)
      else the wildcard trait with the LONGEST matching prefix among all wildcard
-          declarations visible in the hierarchy (own before inherited on equal prefixes);
-          the "class default" is the wildcard entry the root classes declare
+          declarations of the class and the classes it inherits from (nearest first on
+          equal prefixes); the "class default" is the wildcard entry the root classes declare
           ("" -> Python in HasTraits, "" -> Disallow in HasStrictTraits,
            "_" -> untyped Any and "" -> Disallow in HasPrivateTraits; DESIGN §6a) —
    and the outcome demanded by the governing policy is compared with the observation.
+   "Inherited" has two readings here: [mro_rule] follows the C3 method resolution order
+   (what inheritance means in Python; this is the rule Corr.law_codes evaluates), and
+   [spec_rule] takes the direct bases in order, each with everything it inherited (what
+   update_traits_class_dict does).  They coincide except in diamonds.
 
    Clause codes: 10 * kind + k with
      kind 0 Python, 1 Any, 2 Disallow, 3 ReadOnly, 4 Constant, 5 Event, 6 Typed,
@@ -20,6 +26,7 @@
      k = 3 what is stored for the name afterwards is not what the policy determines
            (ReadOnly: defined by exactly the first assignment; Constant/Disallow/Event: nothing
             changes; a rejected assignment changes nothing; an accepted one is what is read next)
+     (Corr.law_tag re-labels a failure on a name whose two class-level rules differ as 99)
 
    Reading for names of the form __x__ without a declared trait: the code maps them on
    purpose to an untyped attribute for writes and to AttributeError for reads that find
@@ -119,8 +126,8 @@ Inductive want := WVal (v : Z) | WDone | WRaise (e : exn) | WFree.
 
 Definition kind_code (g : rule) : Z :=
   match g with
-  | RPol PPython => 0 | RPol (PAny _) => 1 | RPol PDisallow => 2 | RPol PReadOnly => 3
-  | RPol (PConstant _) => 4 | RPol PEvent => 5 | RPol (PTyped _ _) => 6
+  | RPol PPython => 0 | RPol (PAny _) => 1 | RPol PDisallow => 2 | RPol (PReadOnly _) => 3
+  | RPol (PConstant _) => 4 | RPol (PEvent _) => 5 | RPol (PTyped _ _) => 6
   | RDunder => 7 | RNone => 8
   end.
 
@@ -133,9 +140,9 @@ Definition demand (g : rule) (sb : option Z) (o : op) : want * option (option Z)
   | OGet _ =>
       (match g with
        | RPol PPython => match sb with Some v => WVal v | None => WRaise AttributeError end
-       | RPol (PAny d) | RPol (PTyped _ d) => match sb with Some v => WVal v | None => WVal d end
-       | RPol PReadOnly => match sb with Some v => WVal v | None => WVal VUndef end
-       | RPol PDisallow | RPol PEvent => WRaise AttributeError
+       | RPol (PAny d) | RPol (PTyped _ d) | RPol (PReadOnly d) =>
+           match sb with Some v => WVal v | None => WVal d end      (* ReadOnly: d = Undefined until defined *)
+       | RPol PDisallow | RPol (PEvent _) => WRaise AttributeError
        | RPol (PConstant c) => WVal c
        | RDunder => match sb with Some v => WVal v | None => WFree end
        | RNone => WFree
@@ -151,16 +158,20 @@ Definition demand (g : rule) (sb : option Z) (o : op) : want * option (option Z)
                | None => (WRaise TraitError, Some sb)
                end
       | RPol PDisallow | RPol (PConstant _) => (WRaise TraitError, Some sb)
-      | RPol PEvent => (WDone, Some sb)
-      | RPol PReadOnly => if defined sb then (WRaise TraitError, Some sb) else (WDone, Some (Some v))
+      | RPol (PEvent None) => (WDone, Some sb)
+      | RPol (PEvent (Some k)) =>            (* an event with a value type fires only for valid values *)
+          match validate k v with Some _ => (WDone, Some sb) | None => (WRaise TraitError, Some sb) end
+      | RPol (PReadOnly d) =>
+          (* a given default (d <> Undefined) is the defining value: nothing may be assigned *)
+          if negb (Z.eqb d VUndef) || defined sb then (WRaise TraitError, Some sb) else (WDone, Some (Some v))
       | RNone => (WFree, None)
       end
   | ODel _ =>
       match g with
       | RPol PPython => match sb with Some _ => (WDone, Some None) | None => (WRaise AttributeError, Some None) end
       | RPol (PAny _) | RPol (PTyped _ _) | RDunder => (WDone, Some None)
-      | RPol PDisallow | RPol (PConstant _) | RPol PReadOnly => (WRaise TraitError, Some sb)
-      | RPol PEvent => (WDone, Some sb)
+      | RPol PDisallow | RPol (PConstant _) | RPol (PReadOnly _) => (WRaise TraitError, Some sb)
+      | RPol (PEvent _) => (WDone, Some sb)
       | RNone => (WFree, None)
       end
   | OAdd _ _ => (WDone, None)
@@ -231,3 +242,14 @@ Section Law.
 End Law.
 
 Definition l_init : lstate := mkL [] [].
+
+(* two instances of one class: each is judged on its own (instance traits and stored values
+   of one never count for the other); [w] = true selects the second instance *)
+Fixpoint law_hist2 (crule : name -> rule) (i : Z) (la lb : lstate) (h : list (bool * op * obs)) : list Z :=
+  match h with
+  | [] => []
+  | (w, o, ob) :: r =>
+      let me := if w then lb else la in
+      map (fun c => 100 * i + c) (law_step crule me o ob)
+      ++ law_hist2 crule (i + 1) (if w then la else law_next me o ob) (if w then law_next me o ob else lb) r
+  end.
